@@ -195,6 +195,7 @@ def aggregate_check(H):
             cx.oblige("C15.aggregate.empty_result_without_keys", out.cls.name == "EmptyTensorDict")
             return
         cx.oblige("C15.aggregate.aggregator_called_once", len(agg.calls) == 1)
+        cx.oblige("C15.aggregate.aggregator_is_called_not_its_forward", not [e for e in cx.events if e[0] == "agg_forward_called_directly"])
         cx.oblige("C15.aggregate.type", out.cls.name == "Gradients")
         M, aggout = agg.calls[0]
         offK = A.offsets(it, K)
